@@ -9,7 +9,7 @@ CONSTANTS
   Trips = {0, 2}
   Kinds = {"if", "loop", "scan"}
   FnMenu = {1, 2, 3, 4}
-  CarryMenu = {"f2"}
+  CarryMenu = {}
   LitOnly = FALSE
   Sim = FALSE
 INVARIANT DesignOK
